@@ -83,10 +83,21 @@ def fork_call(fn, args=(), timeout=30.0):
             os.close(r)
             signal.signal(signal.SIGALRM, signal.SIG_DFL)
             signal.alarm(int(timeout) + 5)
+            cov = None
+            if os.environ.get("VERIF_COV_DIR"):
+                import coverage
+                cov = coverage.Coverage(
+                    data_file=os.path.join(os.environ["VERIF_COV_DIR"],
+                                           f"cov.{os.getpid()}"),
+                    include=[os.path.join(os.path.realpath(REPO), "pytrs", "*")])
+                cov.start()
             try:
                 res = ("ok", fn(*args))
             except BaseException:  # noqa - report everything to the parent
                 res = ("exc", traceback.format_exc())
+            if cov is not None:
+                cov.stop()
+                cov.save()
             try:
                 data = pickle.dumps(res, protocol=4)
             except Exception:  # noqa
